@@ -171,7 +171,35 @@ def parse_cex(out):
     return hist
 
 
+def replay(ctx):
+    """tools/vcheck C12 --replay replays/C12-...json : run the recorded script again and judge it."""
+    r = json.load(open(ctx.replay))
+    d = r.get("detail") or {}
+    rp = d.get("replay") or {}
+    script = d.get("script") or rp.get("script")
+    if not script:
+        raise vlib.Inconclusive("replay file has no script")
+    if "gas_limit_limbs" in d:
+        l = d["gas_limit_limbs"]
+        limit = (l[0] << 60) + (l[1] << 30) + l[2]
+    else:
+        limit = rp.get("limit", 10 ** 11)
+    base = d.get("price_base") or rp.get("base") or 300000
+    ctx.tlc_mc("vmref", "MCVMLimits.tla", "MC_Limits.cfg", timeout=300, workers=2)
+    res = ctx.go_driver("c12vm", "TestDriver", env={"VERIF_REPLAY_SCRIPT": script, "VERIF_REPLAY_LIMIT": limit,
+                                                     "VERIF_REPLAY_BASE": base}, timeout=600)
+    ctx.absorb(res)
+    trace = os.path.join(res["_out"], "trace-000.ndjson")
+    fails = ctx.trace_judge("vmref", "VMTrace.tla", "Trace_VM.cfg", trace, timeout=600)
+    ctx.traces_validated += res.get("traces", 0)
+    ctx.samples.append({"replayed": ctx.replay, "script": script[:200], "limit": limit, "failed_clauses": sorted({w for f in fails for w in f["what"]})})
+    if fails:
+        report(ctx, vlib.read_ndjson(trace), fails)
+
+
 def run(ctx):
+    if ctx.replay:
+        return replay(ctx)
     q = ctx.quick()
     # 0. the abstract level alone, on a tiny universe (sanity: the clauses are satisfiable and exclude something)
     ctx.tlc_mc("vmref", "MCVMLimits.tla", "MC_Limits.cfg", timeout=300, workers=2)
@@ -252,7 +280,7 @@ def run(ctx):
                 raise
             ctx.extra["model_selftests"] = ctx.extra.get("model_selftests", 0) + 1
 
-    # 2. behaviours of the model (larger heap than the exhaustive runs), both code shapes of REMOVE
+    # 2. random behaviours of the model over larger heaps than the exhaustive runs
     seen = set()
     sims = [("Sim_Deep.cfg", 60 if q else 1500, 30), ("Sim_Wide.cfg", 30 if q else 800, 45),
             ("Sim_Struct.cfg", 60 if q else 1500, 25)]
@@ -268,7 +296,7 @@ def run(ctx):
     # quick tier: a seeded sample of the cover walks (the evidence says how many); thorough: all of them
     cov = [w for c in covers for w in c]
     rnd.shuffle(cov)
-    budget = 600000 if q else 4 * 10 ** 6
+    budget = 800000 if q else 4 * 10 ** 6
     used, n = [], 0
     for w in cov:
         if n + len(w["hist"]) > budget:
@@ -282,6 +310,16 @@ def run(ctx):
     os.makedirs(ind)
     json.dump(behaviours, open(os.path.join(ind, "behaviours.json"), "w"))
 
+    ctx.assumptions += [
+        "the VM is driven as vm.New() + LoadWithFlags(script) + SetGasLimit(finite) + Run(), prices = fee.Opcode(base, op) with "
+        "base in {300000, 299999, 123457} picoGAS per unit; no SyscallHandler / LoadToken (SYSCALL and CALLT fault), so only "
+        "contexts created by CALL/CALLL/CALLA exist (cross-script context loading is interop territory, not observed)",
+        "item counts, integer widths, item sizes are measured by the harness's own walk over Istack()/Estack()/slots; the try "
+        "depth is read (read-only, reflect) from vm.Context.tryStack; the VM's counter through the verif hook VerifRefs()",
+        "instruction boundaries come from the harness's own opcode table (harness/c12vm/optable.go)",
+        "'a cyclic structure was built' = a cycle exists among the compound items reachable before or after some instruction",
+        "nothing is judged about the state left behind by a FAULT",
+    ]
     # 3. real code
     env = {"VERIF_IN": ind}
     if q:
@@ -436,6 +474,14 @@ def selftest(ctx, trace, bad_runs=()):
     cases.append(("bigint", r, i, {"b": 257}, {"IntBounded"}))
     r, i = find(lambda r, i, e: e["e"] == "f" and e["st"] == "FAULT")
     cases.append(("panic", r, i, {"p": True}, {"Total"}))
+    r, i = find(lambda r, i, e: e["e"] == "s" and i > 2)
+    cases.append(("halt-midway", r, i, {"st": "HALT"}, {"RunningIsNone"}))
+    r, i = find(lambda r, i, e: e["e"] == "s" and i > 2)
+    cases.append(("items", r, i, {"w": 2049, "r": 2049}, {"ItemsBounded"}))
+    r, i = find(lambda r, i, e: e["e"] == "s" and i > 2)
+    cases.append(("itemsize", r, i, {"z": 131071}, {"SizeBounded"}))
+    r, i = find(lambda r, i, e: e["e"] == "s" and i > 2)
+    cases.append(("invocations", r, i, {"i": 1025}, {"InvocBounded"}))
     evs, expect = [], []
     for name, r, i, ch, exp in cases:
         seg = [dict(e) for e in r[:i + 1]]
